@@ -92,6 +92,9 @@ class Check(PropertyCheck):
                 jobs.append((name, level, ultra, 1, None, "file", "stdout", None))          # reference
                 for n in (2, 16):
                     jobs.append((name, level, ultra, n, r.below(10000), "file", "stdout", None))
+                # worker counts far above the number of cores (buffer sizing must not depend on the worker count)
+                for n in (19, 64, 200):
+                    jobs.append((name, level, ultra, n, None, "file", "stdout", None))
                 for k in range(per):
                     n = r.range(1, 16)
                     inmode = r.choice(["file", "pipe", "shimr", "shim1" if len(data) <= 350000 else "shimr"])
@@ -171,7 +174,7 @@ class Check(PropertyCheck):
         self.cmp_v = v
         return {"evaluations": len(results) + len(self.cmp_jobs), "distinct_nontrivial": len(nontriv) + hist["configs_compared"],
                 "rule": "evaluations = traced runs replayed through the extracted scheduler model (tie of the model) + runs of the "
-                        "multi-configuration byte comparison (n in 1..16 x H1 seeds x {file, pipe, 1-byte reads, random short reads} "
+                        "multi-configuration byte comparison (n in 1..16 and 19/64/200 x H1 seeds x {file, pipe, 1-byte reads, random short reads} "
                         "x {stdout, FILE operand} x short-write sink, asserts-on and release builds alternating, both modes, "
                         "levels 1/2/9); non-trivial = replayed traces with more than 20 records + configurations whose output was "
                         "compared byte-for-byte with the reference configuration (n=1, file input, stdout)",
